@@ -142,14 +142,19 @@ Definition m_assert_is_dir (p : path) (cf : option cfiles) : M unit :=
   if f then raise (XOS XNotADirectory) else raise (XOS XFileNotFound).
 
 Definition list_dir_superset (d : path) (cf : option cfiles) : M (list name) :=
-  fun w => match listdir (w_fs w) d with
-           | inr e => (w, inr (XOS (err_of e)))
-           | inl names =>
-               let extra := match cf with
-                            | Some c => filter (fun n => negb (mem_str n names)) (cf_list_dir c d)
-                            | None => [] end in
-               (w, inl (sort_strs (names ++ extra)))
-           end.
+  fun w =>
+    let go (names : list name) :=
+      let extra := match cf with
+                   | Some c => filter (fun n => negb (mem_str n names)) (cf_list_dir c d)
+                   | None => [] end in
+      (w, inl (sort_strs (names ++ extra))) in
+    match listdir (w_fs w) d with
+    | inr e =>
+        (* during a replay a directory may exist only in the overlay *)
+        if (oserr_eqb e ENOENT || oserr_eqb e ENOTDIR) && cf_has_dir cf d then go []
+        else (w, inr (XOS (err_of e)))
+    | inl names => go names
+    end.
 
 Fixpoint filterM (f : name -> M bool) (l : list name) : M (list name) :=
   match l with
